@@ -316,6 +316,71 @@ def rule_groups(rep, repo, classes, rule="R6", tier="quick"):
                         "configurations" % n)
 
 
+def rule_call_is_pure(rep, repo, classes, rule, tier):
+  """A call leaves the configuration alone: after q(x) every constructor
+  option still has the value it had (lists included - an option list that
+  is modified in place changes the next call), and a second call on the
+  same input gives the same function as the first (shared with C05)."""
+  import copy as _copy
+  from ..qir import equal_mod_finite
+  from ..pe import PyRaise
+  mod = repo.module(quant.QMOD)
+  n = 0
+  for cls, base in classes:
+    ci = mod.classes.get(cls)
+    if ci is None:
+      raise AnalysisError("anchor-missing class %s" % cls)
+    params = [p_ for p_, _ in ci.init_params()[0]]
+    unit = "%s::%s.__call__" % (mod.relpath, cls)
+    rep.unit(unit)
+    variants = [dict(base)]
+    if "scale_axis" in params and "elements_per_scale" in params:
+      variants += [dict(base, scale_axis=[0, 1], elements_per_scale=2),
+                   dict(base, scale_axis=[0, 2], elements_per_scale=[2, 4]),
+                   dict(base, scale_axis=[1], elements_per_scale=[3]),
+                   dict(base, scale_axis=1, elements_per_scale=3),
+                   dict(base, scale_axis=[1, 2], elements_per_scale=1)]
+    for kw in variants:
+      cfg = "%s(%s)@shape(4, 6, 8)" % (cls, oracle.show_kwargs(kw))
+      try:
+        pe, q = quant.construct(repo, cls, {k_: _copy.deepcopy(v_)
+                                            for k_, v_ in kw.items()},
+                                x_shape=(4, 6, 8))
+        before = {p_: _copy.deepcopy(q.attrs.get(p_)) for p_ in params
+                  if not isinstance(q.attrs.get(p_), Tensor)}
+        pe.rand_counter = 0
+        o1 = pe.call(q, [pe.x_input()], {})
+      except (ConfigRejected, PyRaise):
+        continue
+      n += 1
+      after = {p_: q.attrs.get(p_) for p_ in before}
+      changed = sorted(p_ for p_ in before if type(before[p_]) != type(
+          after[p_]) or before[p_] != after[p_])
+      # documented adjustments made by the call itself are not options
+      rep.check(not changed, rule, unit, "call-changes-configuration",
+                "%s: after one call %s" % (cfg, ", ".join(
+                    "%s is %r (was %r)" % (p_, after[p_], before[p_])
+                    for p_ in changed)), loc=pe.loc_of(o1.term),
+                instance=cfg, observed=str([(p_, after[p_])
+                                            for p_ in changed]))
+      try:
+        pe.rand_counter = 0
+        o2 = pe.call(q, [pe.x_input()], {})
+      except PyRaise as e:
+        rep.fail(rule, unit, "second-call-raises", "%s: the second call of "
+                 "the same object raises %s" % (cfg, e),
+                 loc=pe.loc_of(o1.term), instance=cfg)
+        continue
+      same = all(equal_mod_finite(Fwd(ph)(o1.term), Fwd(ph)(o2.term))
+                 for ph in ("infer", "train"))
+      rep.check(same, rule, unit, "second-call-differs",
+                "%s: the second call of the same object on the same input "
+                "computes %s, the first %s" % (cfg, show(Fwd()(o2.term), 160),
+                                               show(Fwd()(o1.term), 160)),
+                loc=pe.loc_of(o1.term), instance=cfg)
+  return n
+
+
 def run(rep, repo, tier):
   mod = repo.module(quant.QMOD)
   rep.trusted.append("semantics table of TF/Keras primitives")
@@ -431,6 +496,16 @@ def run(rep, repo, tier):
   rule_groups(rep, repo, [("binary", dict(alpha="auto")),
                           ("binary", dict(alpha="auto_po2", use_01=True)),
                           ("ternary", dict(alpha="auto"))], "R6", tier)
+  n8 = rule_call_is_pure(rep, repo, [
+      ("binary", dict(alpha="auto")), ("binary", dict(alpha="auto_po2",
+                                                      use_01=True)),
+      ("binary", dict(alpha=None)), ("ternary", dict(alpha="auto")),
+      ("ternary", dict(alpha="auto_po2")), ("ternary", dict(alpha=None)),
+      ("stochastic_binary", dict(alpha="auto")),
+      ("stochastic_ternary", dict(alpha="auto"))], "R8", tier)
+  if n8 < 15:
+    raise AnalysisError("instance-count only %d call-purity configurations"
+                        % n8)
   # R7: a quantizer installed as weight quantizer (after its own
   # _set_trainable_parameter()) equals the directly constructed one
   from .c05 import rule_installed
